@@ -365,11 +365,14 @@ fn run_case(case: &Value) -> Value {
     let mut fifo_obs: Option<(usize, bool)> = None;
     if let Some((path, h, stop)) = fifo {
         stop.store(true, Ordering::SeqCst);
+        // release a feeder that is (or is about to be) blocked in open() because jawk never opened the pipe: keep offering it a reader
+        // until the thread has ended - it may not even have reached its open() yet when jawk refused the configuration at once
         {
-            // release a feeder that is still blocked in open() because jawk never opened the pipe
             use std::os::unix::fs::OpenOptionsExt;
-            let _r = std::fs::OpenOptions::new().read(true).custom_flags(0o4000).open(&path);
-            std::thread::sleep(std::time::Duration::from_millis(5));
+            while !h.is_finished() {
+                let _r = std::fs::OpenOptions::new().read(true).custom_flags(0o4000).open(&path);
+                std::thread::sleep(std::time::Duration::from_millis(2));
+            }
         }
         fifo_obs = h.join().ok();
     }
